@@ -2,6 +2,7 @@ package main
 
 import (
 	"fmt"
+	"go/ast"
 	"go/token"
 	"go/types"
 	"os"
@@ -57,6 +58,9 @@ func (u *Universe) computeNewHelpers() {
 			continue
 		}
 		cand[f] = true
+	}
+	for h := range cand {
+		newFuncs[h] = true
 	}
 	if len(cand) == 0 {
 		return
@@ -822,6 +826,9 @@ func litsWithHelpers(g *ssa.Function, instr ssa.Instruction, depth int) ([][]Lit
 }
 
 // closuresOf: the anonymous functions of fn and of the new helpers it calls.
+// newFuncs: the top-level functions the reviewed baseline does not know (flattenable or not).
+var newFuncs = map[*ssa.Function]bool{}
+
 func closuresOf(fn *ssa.Function) []*ssa.Function {
 	out := append([]*ssa.Function(nil), fn.AnonFuncs...)
 	seen := map[*ssa.Function]bool{fn: true}
@@ -829,6 +836,14 @@ func closuresOf(fn *ssa.Function) []*ssa.Function {
 	walk = func(g *ssa.Function, d int) {
 		for _, c := range ownCallsIn(g) {
 			h := staticCallee(c)
+			// a closure that was turned into a named method and is started with go / defer plays the closure's role
+			if _, isCall := c.(*ssa.Call); !isCall && h != nil && newFuncs[h] && !seen[h] {
+				seen[h] = true
+				out = append(out, h)
+				out = append(out, h.AnonFuncs...)
+				walk(h, d+1)
+				continue
+			}
 			if _, isCall := c.(*ssa.Call); !isCall || !flattenable[h] || seen[h] || d > 4 {
 				continue
 			}
@@ -838,5 +853,40 @@ func closuresOf(fn *ssa.Function) []*ssa.Function {
 		}
 	}
 	walk(fn, 0)
+	return out
+}
+
+// declWithNewHelpers: the declaration of an anchored function followed by the declarations of the new helpers
+// (functions unknown to the reviewed baseline) it calls, transitively, within the same package. AST-based rules
+// look for their construct in all of them, so that extracting a block into a helper does not lose the anchor.
+func (u *Universe) declWithNewHelpers(pkg, recv, name string) []*ast.FuncDecl {
+	fd, _ := u.DeclOf(pkg, recv, name)
+	if fd == nil {
+		return nil
+	}
+	out := []*ast.FuncDecl{fd}
+	root := u.Prog.FuncValue(u.FuncObj(pkg, recv, name))
+	if root == nil {
+		return out
+	}
+	seen := map[*ssa.Function]bool{root: true}
+	work := []*ssa.Function{root}
+	for len(work) > 0 {
+		f := work[0]
+		work = work[1:]
+		for _, c := range ownCallsIn(f) {
+			h := staticCallee(c)
+			if h == nil || seen[h] || !flattenable[h] || h.Pkg == nil || h.Pkg.Pkg.Path() != pkg {
+				continue
+			}
+			seen[h] = true
+			work = append(work, h)
+			if obj, ok := h.Object().(*types.Func); ok {
+				if hd, _ := u.Decl(obj); hd != nil {
+					out = append(out, hd)
+				}
+			}
+		}
+	}
 	return out
 }
